@@ -106,6 +106,9 @@ def run(pid, repo, res, jobs=16):
     for r in results:
         if r[1] in ("MISSED", "NOISY", "ERROR"):
             print(f"SELFVAL-WARNING {pid} {r[0]}: {r[1]} {r[2]}")
+    sk = [r[0] for r in results if r[1] == "skipped"]
+    if sk:
+        print(f"{pid} self-validation skipped (anchor text absent): {sk}")
     print(
         f"{pid} self-validation: {summary['variants']} variants, {summary['detected']} detected, "
         f"{summary['silent_twins']} silent twins, {summary['skipped']} skipped, {len(summary['failed'])} failed"
